@@ -360,8 +360,10 @@ def gen_cfg(rng, maxn, real):
     if lr == -1:
         lr = True
     elif lr == -2:
-        lr = int(''.join(str(int(d)) for d in rng.integers(
-            1, 8, size=int(rng.integers(2, 5)))))
+        # multi-digit pattern; digits 0 (point-wise) .. 7, first digit not 0
+        lr = int(str(int(rng.integers(1, 8))) + ''.join(
+            str(int(d)) for d in rng.integers(0, 8, size=int(
+                rng.integers(1, 4)))))
     else:
         lr = int(lr)
     clevel = int(rng.choice([-1, -1, -1, 0, 1, 2, 3, 5]))
@@ -506,6 +508,10 @@ def run(ctx):
              nus=[1, 1, 1, 1], ncyc=4),
         dict(shape=[24, 2, 8], cycle='F', sc=2, lr=7, clevel=2,
              nus=[0, 2, 1, 2], ncyc=2),
+        # patterns that contain the digit 0 (no semicoarsening / point-wise
+        # smoothing in that cycle)
+        dict(shape=[8, 12, 8], cycle='V', sc=102, lr=4015, clevel=-1,
+             nus=[0, 1, 1, 1], ncyc=4),
     ]
     for cfg in corpus:
         run_and_check(ctx, cfg, True, pending=pending)
